@@ -28,6 +28,7 @@ CORPUS_SRC = [
     'int f(int c,int x,int y){ if (c < 0) { x = x; } else { x = y * y; } if (c) { y = x; } else { } }',
     'int f(int c,int x,int y){ while (c < 1) { } while (c < 2) { if (x < y) { } else { x = y; } } do { } while (c); }',
     'int f(int n,int x,int y){ int i; for (i = 0; i < n; i++) { } for (i = 0; i < n; i++) { if (x) ; else x = x + y; } }',
+    'int f(int a,int b,int d){ while (a < b) { a = b + b; while (a < b) { d = b + a; } d = b + d; } }',
     # closure that needs a late round: one heavy edge reached through a 3-step chain of copies (if-chain body)
     'int f(int a,int b,int c,int d,int t){ while (t) { if (t) { c = b * b; } else if (t) { d = c; c = a; b = a; } else if (t) { d = a; } else { d = b; } } }',
     # shift register: the k-th stage shows only in the k-th power of the body relation
